@@ -129,7 +129,7 @@ def build(case):
             d.subs = [d.subs[1], d.subs[2], d.subs[0]]
         elif kind == "dst-last":
             d.subs = [d.subs[0], d.subs[2], d.subs[1]]
-    elif kind in ("rdate", "rdate-lines"):
+    elif kind in ("rdate", "rdate-lines", "rdate-unsorted"):
         _, _, std, delta, names = case
         dst = std + delta
         n1, n2 = {"given": ("XST", "XDT"), "absent": (None, None), "same": ("XT", "XT")}[names]
@@ -137,6 +137,10 @@ def build(case):
         on_d = [datetime(y, 3, 20 + y % 5, 2) for y in years]
         on_s = [datetime(y, 10, 10 + y % 7, 3) for y in years]
         nl = 1 if kind == "rdate" else 2
+        if kind == "rdate-unsorted":
+            # every RDATE is an onset, wherever it stands: DTSTART is not the earliest one and the lists are not in order
+            on_d = [on_d[i] for i in (2, 4, 0, 1, 3)]
+            on_s = [on_s[i] for i in (3, 0, 4, 2, 1)]
         d.add("STANDARD", std, std, n1, [datetime(2000, 1, 1)])
         d.add("DAYLIGHT", std, dst, n2, on_d, rdate_lines=nl)
         d.add("STANDARD", dst, std, n1, on_s, rdate_lines=nl)
@@ -325,7 +329,7 @@ def known_interpretation(provider, case, d, obs, pts, tz):
         # dateutil tzical zone: only definitions with negative DST, three observances per year or a change of the standard
         # offset, and only within W = max|utc offset| + max|delta| of an onset; the interior of every interval must be right
         layout = case[1]
-        neg = layout in ("std+dst", "dst-first", "dst-last", "rdate", "rdate-lines") and case[3] < 0
+        neg = layout in ("std+dst", "dst-first", "dst-last", "rdate", "rdate-lines", "rdate-unsorted") and case[3] < 0
         if not (neg or layout in ("double", "two-std") or (layout == "rename")):
             return None
         offs = [abs(s[1]) for s in d.subs] + [abs(s[2]) for s in d.subs]
@@ -467,6 +471,7 @@ def definitions(quick):
             for names in ("given", "absent", "same"):
                 yield ("def", "rdate", std, delta, names)
                 yield ("def", "rdate-lines", std, delta, names)
+                yield ("def", "rdate-unsorted", std, delta, names)
     # the same definitions with additions exporters commonly write (an X- property, a LANGUAGE parameter, a COMMENT)
     for std in STD_OFFSETS:
         for delta in DELTAS:
